@@ -378,6 +378,12 @@ func c10Truncate(c *Ctx) {
 					state = true
 				}
 			}
+			// a state that was loaded stays in the loader: its done bits are honoured whatever happens
+			// next, so it may only have been loaded for a cache file of exactly the indexed size
+			if state && st.Flags["size-match"] != 1 {
+				bad = append(bad, fmt.Sprintf("NewSparseFile returns a usable file at %s after a saved state was loaded although the cache file was not found to be of the indexed size: chunks marked done in the state are served from a file that does not hold them (trail %s)", c.pos(ret.Pos()), strings.Join(st.Trail, ">")))
+				return
+			}
 			if trunc || (state && st.Flags["size-match"] == 1) {
 				return
 			}
